@@ -72,6 +72,14 @@ def _roles(ctx: Ctx) -> None:
             if any(isinstance(c, ast.Call) and _last(dotted(c.func)) in conv for it in iterations(f.node) for c in ast.walk(it["node"])) and f.params and not f.name.startswith("__"):
                 if any("Iterable" in norm(a.annotation) or "Mapping" in norm(a.annotation) or "dict" in norm(a.annotation) for a in f.params if a.annotation is not None):
                     conv.add(f.name)
+    # ... or hands its argument to such a function (a helper generator that converts the elements)
+    for _ in range(3):
+        for f in funcs:
+            if f.name in conv or f.name in ("to_hashable", "try_to_hashable"):
+                continue
+            ps = set(f.param_names())
+            if any(isinstance(c, ast.Call) and _last(dotted(c.func)) in conv - {"to_hashable"} and any(isinstance(a, ast.Name) and a.id in ps for a in c.args) for c in ast.walk(f.node)):
+                conv.add(f.name)
     CONVERTERS.clear()
     CONVERTERS.update(conv)
     SORTERS.clear()
@@ -405,6 +413,11 @@ def rule_stable(ctx: Ctx) -> None:
     d = Defs(fn)
     bad = [c for r in all_returns if r.value is not None for c in ast.walk(d.resolve(r.value)) if isinstance(c, ast.Call) and dotted(c.func) in ("hash", "id")]
     ctx.add("7-stable", fn, fn.node, not bad, "no hash()/id() in any returned key" if not bad else f"a returned key contains `{norm(bad[0])}`: differs between processes", key="no-hash-in-key")
+    # a key is a function of the VALUE: nothing on the way to it is looked up by object identity (an `id(obj)`-keyed memo keeps
+    # returning the key computed before the object was modified in place)
+    ids = [c for f_ in Scope(ctx, fn, wide=True).funcs for c in ast.walk(f_.node) if isinstance(c, ast.Call) and dotted(c.func) == "id"]
+    ctx.add("7-stable", fn, ids[0] if ids else fn.node, not ids, "no object identity (id()) is consulted while building a key" if not ids else
+            f"`{norm(ids[0])}` is consulted while building the key: a key remembered per object identity is returned unchanged after the object was modified in place (equal keys for unequal values)", key="no-identity-memo")
     for hn in ("_pickle_key", "_cloudpickle_key"):
         h = ctx.prog.func(f"{MOD}.{hn}")
         src = Scope(ctx, h).text()
